@@ -72,7 +72,7 @@ MC_PLANS = {
     "C05": ("solve:base,cyclic,locks", 40, 300, False),
     "C07": ("solve:clean", 120, 1200, False),
     "C08": ("solve:direct", 12, 60, False),
-    "C13": ("history:base,hints,soft,excl", 40, 400, True),
+    "C13": ("history:base,hints,soft,excl", 40, 400, True, True),
     "C14": ("solve:soft,softhints,softconflict", 50, 500, False),
 }
 
@@ -182,8 +182,9 @@ def trace_check(prop, tier, seed, plans, t0, extra_cov=None, jobs=12, build_prof
     res = vlib.run_and_validate(exe, case_files, prop, jobs=jobs)
     mc_info, mc_viol = {}, []
     if prop in MC_PLANS:
-        plan, nq, nt, live = MC_PLANS[prop]
-        mc_info, mc_viol = mc_lazycdcl(prop, tier, seed, plan, nq if tier == "quick" else nt, liveness=live)
+        plan, nq, nt, live = MC_PLANS[prop][:4]
+        mc_info, mc_viol = mc_lazycdcl(prop, tier, seed, plan, nq if tier == "quick" else nt, liveness=live,
+                                       cancel=len(MC_PLANS[prop]) > 4 and MC_PLANS[prop][4])
     for bp, other in list(zip(build_profiles, exes))[1:]:
         # the same cases again in another build profile (debug assertions on)
         copies = []
@@ -399,7 +400,7 @@ MC_INVARIANTS = {
 MC_MODULE = {"C03": "MC_LazyCdcl"}      # the abstract (full-propagation) variant stays exercised by one check
 
 
-def mc_lazycdcl(prop, tier, seed, plan, n, liveness=False, timeout=None):
+def mc_lazycdcl(prop, tier, seed, plan, n, liveness=False, timeout=None, cancel=False):
     module = MC_MODULE.get(prop, "MC_LazyCdclW")
     timeout = timeout or (150 if tier == "quick" else 1500)
     """Model-checks LazyCdcl over the cases of `plan` for every admissible
@@ -421,6 +422,10 @@ def mc_lazycdcl(prop, tier, seed, plan, n, liveness=False, timeout=None):
         f.write("SPECIFICATION Spec\nINVARIANTS\n  " + "\n  ".join(invs + ["Report"]) + "\n")
         if liveness:
             f.write("PROPERTY Termination\n")
+        if cancel:
+            # every solve may end Cancelled at any step; the next solve of the history
+            # starts from whatever the cache then holds
+            f.write("CONSTANT CancelOn <- CancelTrue\n")
         f.write("CHECK_DEADLOCK FALSE\n")
     try:
         out, st = vlib.tlc(module + ".tla", os.path.basename(cfg), os.path.join(vlib.WORK, f"md_mc_{prop}"),
@@ -489,6 +494,7 @@ def mc_lazycdcl(prop, tier, seed, plan, n, liveness=False, timeout=None):
     info = {"mc_cases": cnt, "mc_states": st["distinct"], "mc_transitions": st["states"],
             "mc_model": module[3:] + ".tla",
             "mc_invariants": invs + (["Termination (liveness, weak fairness)"] if liveness else []),
+            "mc_cancellation_explored": bool(cancel),
             "mc_real_outcome_in_model_set": member, "mc_cases_with_several_model_outcomes": multi,
             "mc_cases_without_model_outcome": nomodel, "mc_real_outcome_not_in_model_set": nonmember[:5],
             "mc_verdict_mismatches": len(verdict_mismatch)}
